@@ -555,10 +555,13 @@ def r13_single_vararg(repo):
             if not loops:
                 continue
             gs = [(src(t), p) for t, p in flat_guards(st, stop=loops[0])]
-            flags = [t for t, p in gs if not p and t.isidentifier()]
+            # a latch: the branch is entered only while <flag> is falsy / None, and the branch itself binds <flag>
+            # (`not found` ... `found = True`, or `index is None` ... `index = i`)
+            flags = [t for t, p in gs if not p and t.isidentifier()] + \
+                [t[:-len(" is None")] for t, p in gs if p and t.endswith(" is None") and t[:-len(" is None")].isidentifier()]
             blk = getattr(st, "_parent", None)
-            sets = [n for n in getattr(blk, "body", []) if isinstance(n, ast.Assign) and const_value(n.value) is True and
-                    src(n.targets[0]) in flags] if isinstance(blk, ast.If) else []
+            sets = [n for n in getattr(blk, "body", []) if isinstance(n, ast.Assign) and src(n.targets[0]) in flags and
+                    const_value(n.value, 1) not in (None, False, 0)] if isinstance(blk, ast.If) else []
             obs.append(Ob("C01-R13", "%s:vararg-latched" % name, _w(f, st), bool(sets),
                           "`%s` inside a loop over the parameters under %s: nothing prevents a second vararg (expected a "
                           "`not <flag>` guard whose branch sets the flag)" % (src(st), [("" if p else "not ") + t for t, p in gs])))
